@@ -14,7 +14,7 @@ WT=$(mktemp -d /tmp/vseed.XXXXXX); rmdir $WT
 git -C /repo worktree add -q --detach $WT HEAD || exit 2
 trap 'git -C /repo worktree remove --force '$WT' 2>/dev/null; rm -rf '$WT EXIT
 cd $WT; mkdir -p .tmp
-PAT="Test${ID}M${K}"
+PAT="${ID}_?M${K}"
 run_demo() { cp $DEMO $WT/$DIR/zz_seed_demo_test.go; (cd $WT/$DIR && timeout 600 go test -vet=off -count=1 $RACE -run "(?i)$PAT" -timeout 500s . > $WT/demo.out 2>&1); rc=$?; rm -f $WT/$DIR/zz_seed_demo_test.go; return $rc; }
 run_demo; WITHOUT=$?
 grep -q "no tests to run" $WT/demo.out && { echo "$ID m$K: demo pattern $PAT matched no test"; exit 2; }
